@@ -165,7 +165,13 @@ class LRUTrieNode(object):
                 chunks = []
 
                 while True:
-                    data = struct.unpack(LRU_TRIE_NODE_FORMAT, self.storage.read())
+                    raw = self.storage.read()
+
+                    # The tail may be missing if a write was interrupted
+                    if raw is None:
+                        break
+
+                    data = struct.unpack(LRU_TRIE_NODE_FORMAT, raw)
                     chars = data[LRU_TRIE_NODE_STEM]
 
                     chunks.append(chars)
